@@ -8,6 +8,7 @@ mod fuzz;
 mod scen;
 mod fam_c13;
 mod fam_c16;
+mod fam_c18;
 mod fam_c19;
 mod fam_c20;
 mod world;
@@ -122,7 +123,7 @@ fn main() {
         "c13" => fam_c13::gen(&mut rng, thorough, &mut ctx.out),
         "c16" => fam_c16::gen(&mut rng, thorough, &mut ctx.out),
         "c20" => fam_c20::gen(&mut rng, thorough, &mut ctx.out),
-        "c19" => vec![],
+        "c18" | "c19" => vec![],
         other if sys_family(other).is_some() => vec![],
         other => {
             eprintln!("unknown family {other}");
@@ -132,6 +133,13 @@ fn main() {
     for case in cases {
         let imp = eval(&case, &mut ctx);
         ctx.out.write_case(case, imp);
+    }
+    if fam == "c18" {
+        let w = ctx.world();
+        let done = fam_c18::run(&w, &mut rng, thorough, &mut ctx.out);
+        for (case, imp) in done {
+            ctx.out.write_case(case, imp);
+        }
     }
     if fam == "c19" {
         let w = ctx.world();
